@@ -33,6 +33,7 @@ func (w *chainWorld) Clone() bfs.World {
 	c := &chainWorld{u: w.u, n: node.Open(w.u, w.n.DB.CloneDB())}
 	c.hist = append([]bfs.Op(nil), w.hist...)
 	c.n.Obs.First = w.n.Obs.First // a divergence of the expiration lists taints every later state
+	c.n.Obs.CoreRevert = w.n.Obs.CoreRevert
 	return c
 }
 
